@@ -92,7 +92,17 @@ def strat_history(draw, tier):
             # the system variable that shares its name with a parameter of
             # boot() can only be named in the dictionary
             extra["boot_delay"] = draw(st.integers(0, 255))
+        # a struct file of the caller's own (a newer SC&MP whose defaults
+        # differ), with or without an image of the caller's own
+        own_struct = None
+        if draw(st.integers(0, 3)) == 0:
+            own_struct = {}
+            for name in draw(st.lists(st.sampled_from(fields), min_size=1,
+                                      max_size=2, unique=True)):
+                bits = 8 * sv.fields[name].elem_size
+                own_struct[name] = draw(st.integers(0, (1 << bits) - 1))
         calls.append({
+            "own_struct": own_struct,
             "overlap": overlap,
             "refuse_send": refuse, "dims": draw(st.booleans()),
             "via": draw(st.sampled_from(["boot", "boot", "controller"])),
@@ -101,6 +111,22 @@ def strat_history(draw, tier):
             "image": size, "delay": draw(st.sampled_from([0.0, 0.05])),
             "advance": draw(st.sampled_from([0.0, 1.5, 1000.25]))})
     return {"calls": calls}
+
+
+def _struct_text(repo, defaults):
+    """The bundled struct file with other default values for some system
+    variables."""
+    out = []
+    with open(os.path.join(repo, "rig", "boot", "sark.struct")) as f:
+        for line in f:
+            body, sep, comment = line.rstrip("\n").partition("#")
+            parts = body.split()
+            if len(parts) == 5 and parts[0] in defaults:
+                parts[4] = str(defaults[parts[0]])
+                line = "  ".join(parts) + ("  #" + comment if sep else "") \
+                    + "\n"
+            out.append(line)
+    return "".join(out)
 
 
 def _split(data):
@@ -126,7 +152,7 @@ def _reset_mutable_defaults(fn):
 def check_history(case):
     from rig.machine_control import boot as rboot
     _reset_mutable_defaults(rboot.boot)
-    sv = svstruct.load()["sv"]
+    sv_bundled = svstruct.load()["sv"]
     tmp = tempfile.mkdtemp(prefix="vf-c20-")
     repo = os.environ.get("RIG_REPO", "/repo")
     with open(os.path.join(repo, "rig", "boot", "scamp.boot"), "rb") as f:
@@ -159,6 +185,16 @@ def check_history(case):
                     with open(path, "wb") as f:
                         f.write(image)
                     kwargs["scamp_binary"] = path
+                sv = sv_bundled
+                if call.get("own_struct"):
+                    text = _struct_text(repo, call["own_struct"])
+                    spath = os.path.join(tmp, "sark%d.struct" % (i % 2))
+                    with open(spath, "w") as f:
+                        f.write(text)
+                    kwargs["sark_struct"] = spath
+                    sv = svstruct.parse(text)["sv"]
+                    classes.add("own-struct-file" + (
+                        "" if call["image"] is None else "+own-image"))
                 style = call["style"]
                 passed = None
                 if style == "kwargs":
@@ -335,7 +371,7 @@ def check_history(case):
                         got2 += struct.pack("<%dI" % len(w2 or ()),
                                             *(w2 or ()))
                     t2 = int(inner["t"])
-                    conf2 = svstruct.pack_defaults(sv, dict(
+                    conf2 = svstruct.pack_defaults(sv_bundled, dict(
                         inner["options"], unix_time=t2, boot_sig=t2,
                         root_chip=1))[:128]
                     require(got2 == image[:384] + conf2 + image[512:],
